@@ -16,7 +16,7 @@ verus! {
 //@take src/models/envelope/pae_v1.rs const:SPLIT_U8
 //@take src/models/envelope/pae_v1.rs struct:PaeV1
 
-//@extract src/models/envelope/pae_v1.rs fn:consume_load_len props=C20,C14
+//@extract src/models/envelope/pae_v1.rs fn:consume_load_len props=C20,C14 panics=C20
 //@subst G1 /\|num\| \*num == SPLIT_U8/ => |num: &u8| -> (b: bool) ensures b == (*num == 0x20u8) { *num == SPLIT_U8 }
 //@contract ret=r
     ensures r is Ok <==> spec_consume(raw@) is Some,  // [C20]
@@ -32,13 +32,13 @@ verus! {
 //@end
 
 impl PaeV1 {
-//@extract src/models/envelope/pae_v1.rs "impl:DSSEParser for PaeV1/fn:pae_pack" props=C20,C14
+//@extract src/models/envelope/pae_v1.rs "impl:DSSEParser for PaeV1/fn:pae_pack" props=C20,C14 panics=C20
 //@fmt 1
 //@subst D11 /\[sig_header\.as_bytes\(\), payload\]\.concat\(\)/ => concat2_u8(sig_header.as_bytes(), payload)
 //@contract ret=r
     ensures r@ == spec_pae(payload_ver@, payload@),  // [C20]
 //@end
-//@extract src/models/envelope/pae_v1.rs "impl:DSSEParser for PaeV1/fn:pae_unpack" props=C20,C14
+//@extract src/models/envelope/pae_v1.rs "impl:DSSEParser for PaeV1/fn:pae_unpack" props=C20,C14 panics=C20
 //@contract ret=r
     ensures r is Ok <==> spec_unpack(bytes@) is Some,  // [C20]
             r is Ok ==> (r->Ok_0).0@ == (spec_unpack(bytes@)->0).0 && (r->Ok_0).1@ == (spec_unpack(bytes@)->0).1,  // [C20]
